@@ -1,7 +1,73 @@
-(* Props/C13.v — property theorems only. *)
-From Verif Require Import Base.Str Base.Utf8 Syntax.Quote Proofs.QuoteProofs.
+(* Props/C13.v — property theorems only (C13: Quote produces a word that expands back to the string).
+   Model: Syntax/Quote.v (quote = syntax.Quote, unquote = word lexing + quote removal + $'..' decoding),
+   Base/Utf8.v.  is_print (unicode.IsPrint) is universally quantified: the theorems hold for every table. *)
+From Verif Require Import Base.Str Base.Utf8 Syntax.Quote Proofs.Utf8Proofs Proofs.QuoteProofs.
 Open Scope N_scope.
 
-Theorem C13_empty_is_quoted : forall ip l, quote ip [] l = Ok [39; 39].
-Proof. exact quote_empty. Qed.
-Print Assumptions C13_empty_is_quoted.
+(* Round trip, all four strategies (unquoted, '..', "..", $'..' incl. mksh re-quoting), all five variants,
+   all byte strings (bytes < 256; absence of NUL follows from quote = Ok). *)
+Theorem C13_roundtrip : forall (is_print : N -> bool) (s : str) (l : lang) (q : str),
+  bytes_ok s -> quote is_print s l = Ok q -> unquote l q = Some s.
+Proof. exact quote_roundtrip. Qed.
+Print Assumptions C13_roundtrip.
+
+(* Quote fails exactly when: NUL in s; or POSIX and some rune is an invalid byte or not printable;
+   or mksh and some non-printable rune is above U+FFFD. *)
+Theorem C13_fails_only_when : forall (is_print : N -> bool) (s : str) (l : lang),
+  (exists c, quote is_print s l = Err c) <->
+  (In 0 s
+   \/ (is_posix l = true /\ exists e, In e (runes s) /\ non_print is_print (fst e) (snd e) = true)
+   \/ (is_mksh l = true /\ exists r, In r (rune_values s) /\ 65533 < r /\ is_print r = false)).
+Proof. exact quote_err_iff. Qed.
+Print Assumptions C13_fails_only_when.
+
+Theorem C13_never_panics : forall (is_print : N -> bool) (s : str) (l : lang), quote is_print s l <> Panic.
+Proof. exact quote_not_panic. Qed.
+Print Assumptions C13_never_panics.
+
+(* A result is either s itself -- then s is non-empty, has no shell metacharacter and is no reserved word --
+   or it is enclosed in '..', ".." or $'..'. *)
+Theorem C13_keyword_or_meta_is_quoted : forall (is_print : N -> bool) (s : str) (l : lang) (q : str),
+  quote is_print s l = Ok q ->
+  (q = s /\ s <> [] /\ Forall (fun c => word_special c = false) s /\ is_keyword s = false)
+  \/ (exists body, q = [39] ++ body ++ [39] \/ q = [34] ++ body ++ [34] \/ q = [36; 39] ++ body ++ [39]).
+Proof. exact quote_shape. Qed.
+Print Assumptions C13_keyword_or_meta_is_quoted.
+
+(* UTF-8: encoding what was decoded gives the consumed bytes back (unless the byte was invalid) *)
+Theorem C13_utf8_encode_decode : forall (s : str) (r : N) (n : nat),
+  decode_rune s = (r, n) -> s <> [] -> ~ (r = RuneError /\ n = 1%nat) -> encode_rune r = firstn n s.
+Proof. exact encode_decode. Qed.
+Print Assumptions C13_utf8_encode_decode.
+
+Theorem C13_utf8_runes_partition : forall s : str, concat (map snd (runes s)) = s.
+Proof. exact runes_concat. Qed.
+Print Assumptions C13_utf8_runes_partition.
+
+(* non-vacuity: each strategy and each error is reachable *)
+Example C13_ex_unquoted : quote ex_print [97; 46; 98] LBash = Ok [97; 46; 98].
+Proof. exact ex_unquoted. Qed.
+Example C13_ex_keyword : quote ex_print [105; 102] LPosix = Ok [39; 105; 102; 39].
+Proof. exact ex_keyword. Qed.
+Example C13_ex_single : quote ex_print [97; 32; 36; 98] LPosix = Ok [39; 97; 32; 36; 98; 39].
+Proof. exact ex_single. Qed.
+Example C13_ex_double : quote ex_print [97; 39; 36; 195; 169] LPosix = Ok [34; 97; 39; 92; 36; 195; 169; 34].
+Proof. exact ex_double. Qed.
+Example C13_ex_ansi : quote ex_print [97; 10; 255; 39] LBash = Ok [36; 39; 97; 92; 110; 92; 120; 102; 102; 92; 39; 39].
+Proof. exact ex_ansi. Qed.
+Example C13_ex_mksh_requote : quote ex_print [27; 97] LMksh = Ok [36; 39; 92; 120; 49; 98; 39; 36; 39; 97; 39].
+Proof. exact ex_mksh_requote. Qed.
+Example C13_ex_unicode : quote ex_print [194; 128; 240; 144; 128; 128] LZsh
+  = Ok [36; 39; 92; 117; 48; 48; 56; 48; 92; 85; 48; 48; 48; 49; 48; 48; 48; 48; 39].
+Proof. exact ex_unicode. Qed.
+Example C13_ex_unquote_mksh_hex : unquote LMksh [36; 39; 92; 120; 49; 98; 97; 39] = None
+  /\ unquote LBash [36; 39; 92; 120; 49; 98; 97; 39] = Some [27; 97].
+Proof. exact ex_unquote_rejects_mksh_hex. Qed.
+Example C13_ex_err_null : quote ex_print [97; 0] LBash = Err (8 * 1 + E_NULL).
+Proof. exact ex_err_null. Qed.
+Example C13_ex_err_posix : quote ex_print [97; 98; 10] LPosix = Err (8 * 2 + E_POSIX).
+Proof. exact ex_err_posix. Qed.
+Example C13_ex_err_mksh : quote ex_print [97; 240; 144; 128; 128] LMksh = Err (8 * 1 + E_MKSH).
+Proof. exact ex_err_mksh. Qed.
+Example C13_ex_ufffd_posix : quote ex_print [239; 191; 189] LPosix = Ok [239; 191; 189].
+Proof. exact ex_ufffd_posix. Qed.
